@@ -34,6 +34,7 @@ func verifPartition(dim int, c verifIdxCfg) *partition {
 		index:       idx,
 		raftMu:      &sync.RWMutex{},
 		notificator: utils.NewNotificator(),
+		log:         verifLogEntry(),
 	}
 }
 
